@@ -376,7 +376,8 @@ class FakeSnowflakeCursor:
         self._rowcount = affected_count if affected_count is not None else self._arrow_table.num_rows
 
         self._last_sql = result_sql or describe_sql
-        self._last_params = params
+        # the status select that replaces the statement's own result has no placeholders to bind
+        self._last_params = None if result_sql else params
 
     def _log_sql(self, sql: str, params: Sequence[Any] | dict[Any, Any] | None = None) -> None:
         if (fs_debug := os.environ.get("FAKESNOW_DEBUG")) and fs_debug != "snowflake":
